@@ -359,7 +359,6 @@ private:
     bool declaration();
     /** Parse optional label. */
     bool label(bool required = false, const std::string& kind = "");
-    int invariant();
     /** Parse optional committed tag. */
     bool committed();
     /** Parse optional urgent tag. */
@@ -604,34 +603,6 @@ bool XMLReader::label(bool required, const std::string& s_kind)
     return false;
 }
 
-int XMLReader::invariant()
-{
-    int result = -1;
-    if (begin(tag_t::LABEL)) {
-        /* Get kind attribute. */
-        char* kind = getAttribute("kind");
-        if (kind == nullptr)
-            throw TypeException{"A label must have a \"kind\" attribute"};
-        read();
-        /* Read the text and push it to the parser. */
-        if (getNodeType() == XML_READER_TYPE_TEXT) {
-            const xmlChar* text = xmlTextReaderConstValue(reader.get());
-            auto kind_sv = std::string_view{kind};
-            // This is a terrible mess but it's too badly designed
-            // to fix at this moment.
-            if (kind_sv == "invariant") {
-                if (parse(text, S_INVARIANT) == 0)
-                    result = 0;
-            } else if (kind_sv == "exponentialrate") {
-                if (parse(text, S_EXPONENTIAL_RATE) == 0)
-                    result = 1;
-            }
-        }
-        xmlFree(kind);
-    }
-    return result;
-}
-
 std::string XMLReader::name(bool instanceLine)
 {
     std::string text = readString(tag_t::NAME, instanceLine);
@@ -744,12 +715,30 @@ bool XMLReader::location()
                 throw TypeException{"Every location must have a unique id attribute value"};
             /* Get name of the location. */
             std::string l_name = name();
-            /* Read the invariant. */
+            /* Read the invariant and the exponential rate. The builder takes the rate from the top of its
+             * expression stack and the invariant from below it, so the invariant is handed to the grammar
+             * first, in whichever order the two labels are written. */
+            struct pending_label
+            {
+                std::string kind, text, xpath;
+            };
+            auto pending = std::vector<pending_label>{};
             while (begin(tag_t::LABEL)) {
-                int res = invariant();
-                l_invariant |= res == 0;
-                l_exponentialRate |= res == 1;
+                char* kind = getAttribute("kind");
+                if (kind == nullptr)
+                    throw TypeException{"A label must have a \"kind\" attribute"};
+                auto kind_s = std::string{kind};
+                xmlFree(kind);
+                read();
+                if (getNodeType() == XML_READER_TYPE_TEXT && (kind_s == "invariant" || kind_s == "exponentialrate"))
+                    pending.push_back({kind_s, (const char*)xmlTextReaderConstValue(reader.get()), path.str()});
             }
+            for (const auto& l : pending)
+                if (l.kind == "invariant")
+                    l_invariant |= parse_XTA(l.text.c_str(), parser, newxta, S_INVARIANT, l.xpath) == 0;
+            for (const auto& l : pending)
+                if (l.kind == "exponentialrate")
+                    l_exponentialRate |= parse_XTA(l.text.c_str(), parser, newxta, S_EXPONENTIAL_RATE, l.xpath) == 0;
             /* Is the location urgent or committed? */
             bool l_urgent = urgent();
             bool l_committed = committed();
